@@ -249,7 +249,7 @@ var addrPool = []string{"10.0.0.1:9100", "10.0.0.2:9100", "10.0.0.1", "host-a", 
 
 var valuePool = []string{"v1", "v2", "prod", "with space", "quo\"te", "new\nline", "a: b", "# hash", " lead", "trail ", "true", "null", "ünï-世界", "0123", "x;y", "/alt/path", "https", "http", "9100"}
 
-var discLabelPool = []string{"zone", "dc", "__name__", "__param_module", "__meta_kubernetes_pod_label_app", "__meta_kubernetes_pod_label_1st", "__meta_kubernetes_namespace", "__meta_port", "__meta_path", "__meta_scheme", "env", "__tmp_x"}
+var discLabelPool = []string{"zone", "dc", "Zone", "App", "__name__", "__param_module", "__meta_kubernetes_pod_label_app", "__meta_kubernetes_pod_label_1st", "__meta_kubernetes_namespace", "__meta_port", "__meta_path", "__meta_scheme", "env", "__tmp_x"}
 
 func genLabels(t *rapid.T, label string, max int) map[string]string {
 	out := map[string]string{}
